@@ -120,13 +120,17 @@ theorem inv_step (s : State) (op : Op) (hinv : Inv s)
       exact ⟨s.clock, hrt, hclock.1⟩
     | forcedU t w hop _ => subst hop; simp [Op.isForce] at hf
     | forcedC t w hop _ => subst hop; simp [Op.isForce] at hf
-  · obtain ⟨w, hw, _, hwu⟩ := step_new s op j e' hge hj
-    rw [hwu] at hu
-    cases hu
-    obtain ⟨w', hw', hrt⟩ := timeToStr_ok_of_inRange s.clock hr
-    rw [hw] at hw'
-    cases hw'
-    exact ⟨s.clock, hrt, hclock.1⟩
+  · rcases step_new s op j e' hge hj with ⟨w, hw, _, hwu⟩ | ⟨src, se, hsrc, _, hsu⟩
+    · rw [hwu] at hu
+      cases hu
+      obtain ⟨w', hw', hrt⟩ := timeToStr_ok_of_inRange s.clock hr
+      rw [hw] at hw'
+      cases hw'
+      exact ⟨s.clock, hrt, hclock.1⟩
+    · -- a copy carries the update time of its source, which is not after the clock
+      rw [hsu] at hu
+      obtain ⟨u, hu1, hu2⟩ := hall src se v hsrc hu
+      exact ⟨u, hu1, Int.le_trans hu2 hclock.1⟩
 
 /-- with a non-decreasing clock and no force calls, the update time every entity reports is
 non-decreasing along any history (from any state in which no stored update time lies in the
@@ -508,6 +512,38 @@ theorem C19_create_stamps_now (s : State) (k : Kind) (p : Nat) (pe : Ent)
 
 example : ∃ s, State.open 1000 true = .ok s ∧
     observe (step s (.create .block 0 .good)).1 1 .created = some (.ok (some 1000)) :=
+  ⟨_, rfl, by decide +kernel⟩
+
+/-- `create_*(copy_from=src)` of a live array / frame / property inside a live owner: the copy carries the
+stored creation and update time of its source (`H5Group.copy` duplicates the attributes; whether or not the id
+is kept), and every existing entity — the source included — is exactly as it was -/
+theorem C19_copy_keeps_source_stamps (s : State) (src p : Nat) (se pe : Ent)
+    (hs : s.ents[src]? = some se) (hsa : se.alive = true) (hp : s.ents[p]? = some pe)
+    (hpa : pe.alive = true) (hv : validParent se.kind pe.kind = true)
+    (hleaf : se.kind = .dataArray ∨ se.kind = .dataFrame ∨ se.kind = .property) :
+    (step s (.copy src p)).2 = .done ∧
+    (step s (.copy src p)).1.ents[s.ents.length]? =
+      some { kind := se.kind, parent := p, alive := true, created := se.created, updated := se.updated } ∧
+    (∀ j, j < s.ents.length → (step s (.copy src p)).1.ents[j]? = s.ents[j]?) := by
+  have h1 : aliveAt s src = some se := by simp [aliveAt, hs, hsa]
+  have h2 : aliveAt s p = some pe := by simp [aliveAt, hp, hpa]
+  have hl : (se.kind == .dataArray || se.kind == .dataFrame || se.kind == .property) = true := by
+    rcases hleaf with h | h | h <;> simp [h]
+  have hstep : step s (.copy src p) =
+      ({ s with ents := s.ents ++ [{ kind := se.kind, parent := p, alive := true,
+                                     created := se.created, updated := se.updated }] }, .done) := by
+    simp [step, h1, h2, hv, hl]
+  rw [hstep]
+  refine ⟨rfl, by simp, ?_⟩
+  intro j hj
+  simp [List.getElem?_append_left hj]
+
+example : ∃ s, State.open 1000 true = .ok s ∧
+    (run s [.create .block 0 .good, .create .dataArray 1 .good, .setClock 2000,
+            .call 2 none .m_label ⟨.returns, .self⟩, .setClock 3000, .copy 2 1]).ents.map
+      (fun e => (readStamp e.created, readStamp e.updated)) =
+      [(.ok (some 1000), .ok (some 1000)), (.ok (some 1000), .ok (some 1000)),
+       (.ok (some 1000), .ok (some 2000)), (.ok (some 1000), .ok (some 2000))] :=
   ⟨_, rfl, by decide +kernel⟩
 
 /-! ## forcing a time stamp and reading it back, also after re-opening -/
